@@ -60,7 +60,7 @@ def gen_scenario(rng, tier, prepop_kinds=()):
     return {"pl_exp": exp, "torrents": torrents, "nsearch": nsearch, "decoys": decoys, "prepop": prepop,
             "junk": rng.random() < 0.7, "seed": rng.randrange(1 << 30), "enum": rng.choice(["sorted", "reverse", "shuffle", "shuffle"]),
             "via": rng.choice(["lib", "lib", "cli"]), "meta_as_dir": ntor > 1 and rng.random() < 0.5,
-            "search_as_file": rng.random() < 0.15,
+            "search_as_file": rng.random() < 0.15, "two_phase": rng.random() < 0.15,
             "repeats": 1}
 
 
@@ -129,6 +129,7 @@ def build_world(case, scratch):
             world["genuine"].setdefault(os.path.basename(rel), set()).add(dig)
             full = tree["name"] if tree["single"] else os.path.join(tree["name"], rel)
             world["placed_expect"][full] = (f[1], dig)
+            world.setdefault("copies", []).append((target, f[1]))
     for d in case["decoys"]:
         tor = case["torrents"][d["torrent"]]
         f = tor["tree"]["files"][d["file"]]
@@ -289,7 +290,7 @@ class C13:
             "non-trivial when >= 2 files, a decoy, or a boundary-ending file; distinct by (per-torrent version / "
             "layout / encoder, #search dirs, decoy kinds, route, metafiles-as-directory)")
     required = ("dest_trees_verified", "decoy_met_first", "batch_cases", "v1_torrents", "v2_torrents", "v3_torrents",
-                "copy_events", "boundary_cases", "empty_file_cases")
+                "copy_events", "boundary_cases", "empty_file_cases", "two_phase_cases", "search_path_is_a_file_cases")
     assumptions = ("v1 metafiles with padding entries are outside the quantifier (not generated)",
                    "decoys are fresh random bytes: none of their pieces verifies")
 
@@ -305,11 +306,31 @@ class C13:
         if "error" in world:
             return {"inconclusive": world["error"]}
         captured = {}
+        counters, viol = {}, []
+        if case.get("two_phase"):
+            # an earlier rebuild in this process saw one candidate while it was still incomplete (right name and
+            # size, wrong bytes); the copy is completed in place before the judged rebuild
+            rng2 = random.Random(case["seed"] + 1)
+            cands = [c for c in world.get("copies", []) if c[1] > 0]
+            if cands:
+                victim, size = rng2.choice(cands)
+                with open(victim, "rb") as fd:
+                    good = fd.read()
+                # every byte differs, so no piece of the incomplete copy verifies (a partly verifying copy could
+                # legitimately be placed by the first run and, being full length, never be replaced - C14)
+                bad = bytes((b % 255) + 1 for b in good)
+                with open(victim, "wb") as fd:
+                    fd.write(bad)
+                run_rebuild(case, world, {})
+                with open(victim, "wb") as fd:
+                    fd.write(good)
+                counters["two_phase_cases"] = 1
         env.AUDIT.start()
         oc = run_rebuild(case, world, captured)
         events = env.AUDIT.stop()
-        counters, viol = {}, []
         counters["copy_events"] = sum(1 for e, _ in events if e == "shutil.copyfile")
+        for e, _ in events:
+            counters["audit:" + e] = counters.get("audit:" + e, 0) + 1
         pl = 2 ** case["pl_exp"]
         if not oc.ok:
             viol.append(oracles.V("rebuild-raised", exc=oc.excname(), tb=(oc.tb or "")[-1500:]))
@@ -426,6 +447,8 @@ class C14:
             returned.append(oc.ret if oc.ok else oc.excname())
             decoy_first += _decoy_first(world, captured)
             counters["copy_events"] = counters.get("copy_events", 0) + sum(1 for e, _ in events if e == "shutil.copyfile")
+            for e, _ in events:
+                counters["audit:" + e] = counters.get("audit:" + e, 0) + 1
             if rep:
                 counters["repeat_runs"] = counters.get("repeat_runs", 0) + 1
             after_dst = env.snapshot(world["dest"]) if os.path.exists(world["dest"]) else {}
@@ -490,7 +513,9 @@ class C14:
 
 # ---------------------------------------------------------------------- C19
 HOSTILE = ["..", ".", "", "../..", "a/../../b", "../../../../../../../../../../..", "/abs", "x/../..", "..\\..",
-           "a/../../../b", "./..", "..//..", "/", "//abs2", "sub/../../esc"]
+           "a/../../../b", "./..", "..//..", "/", "//abs2", "sub/../../esc",
+           # climb out and come back down into a sibling whose name merely STARTS like the destination ("dest")
+           "../dest2", "../../dest2", "../../dest-old/in", "../dest.bak", "../../../lvl2/dest2", "x/../../dest_"]
 
 
 class C19:
@@ -607,6 +632,9 @@ class C19:
         after = env.snapshot(sandbox)
         after = {k: v for k, v in after.items() if not (k + "/").startswith("lvl1/lvl2/dest/") and k != "lvl1/lvl2/dest"}
         counters, viol = {"rebuild_calls": 1}, []
+        for e, _ in events:
+            counters["audit:" + e] = counters.get("audit:" + e, 0) + 1
+        counters["audit_events_vetoed"] = len(vetoed)
         if vetoed:
             viol.append(oracles.V("write-outside-destination-attempted", events=[[e, [p.replace(scratch, "<S>") for p in ps]]
                                                                                   for e, ps in vetoed[:5]],
